@@ -660,7 +660,7 @@ func run(id, tier string, seed uint64) int {
 	}
 	sort.Strings(kk)
 	for _, k := range kk {
-		fmt.Printf("KNOWN-FINDING: property=%s %s: %s (matched %d times in this run)\n", id, k, known[k].Description, knownMatched[k])
+		fmt.Printf("KNOWN-FINDING: property=%s %s: %s (matched %d times in this run)\n", id, k, oneLine(known[k].Description), knownMatched[k])
 	}
 	for _, r := range inconclusive {
 		fmt.Printf("INCONCLUSIVE property=%s %s\n", id, r)
@@ -679,8 +679,8 @@ func run(id, tier string, seed uint64) int {
 
 func oneLine(s string) string {
 	s = strings.Replace(s, "\n", " ", -1)
-	if len(s) > 160 {
-		s = s[:160] + "…"
+	if len(s) > 200 {
+		s = s[:200] + "…"
 	}
 	return s
 }
